@@ -16,7 +16,7 @@ vars == <<l, img, st, acc, cur>>
 NoImg == [bpp |-> 0, ord |-> 0, w |-> 0, h |-> 0, data |-> <<>>]
 Init == /\ l = 1 /\ img = NoImg /\ acc = <<>> /\ cur = 0
         /\ st = [draws |-> 0, fc_calls |-> 0, fc_len_as_pinned_machine |-> 0, fc_len_as_patched_machine |-> 0,
-                 failing_observations |-> 0, clipped_draws |-> 0, huge_new_probes |-> 0, window_draws |-> 0]
+                 failing_observations |-> 0, clipped_draws |-> 0, huge_new_probes |-> 0, window_draws |-> 0, skipping_draws |-> 0]
 
 FcOf(calls) == SelectSeq(calls, LAMBDA c : c.m = "fc")
 DrawDetail(e, tgt, calls) ==
@@ -54,6 +54,12 @@ ItemsWDraw(e) ==
   ELSE Failing([k \in 1..Len(e.wins) |->
          [codes |-> WinDrawFails(img, e.areas, e.mode, e.at, e.size, e.wins[k].box, e.wins[k].calls),
           d |-> [what |-> "wdraw", bpp |-> img.bpp, img |-> <<img.w, img.h>>, areas |-> e.areas, mode |-> e.mode, at |-> e.at, window |-> e.wins[k].box]]])
+ItemsSDraw(e) ==
+  IF img.bpp = 0 THEN <<>>
+  ELSE Failing([j \in 1..Len(e.obs) |->
+         [codes |-> SkipDrawFails(img, e.areas, e.at, e.size, e.obs[j].k, e.obs[j].calls),
+          d |-> [what |-> "sdraw", bpp |-> img.bpp, img |-> <<img.w, img.h>>, areas |-> e.areas, at |-> e.at, k |-> e.obs[j].k,
+                 n |-> IF Len(e.obs[j].calls) > 0 THEN e.obs[j].calls[1].n ELSE -1]]])
 ItemsHugeNew(e) ==
   Failing([i \in 1..Len(e.items) |-> [codes |-> HugeNewFails(e.bpp, e.items[i]), d |-> [what |-> "hugenew", bpp |-> e.bpp, item |-> e.items[i]]]])
 StatAfterDraw(e) ==
@@ -67,7 +73,7 @@ StatAfterDraw(e) ==
 
 \* <<failing observations, img', st'>> of a non-case event; the CASE has no OTHER: an unknown
 \* event kind is a structural error (trace rejected)
-Known == {"case", "new", "image", "noimage", "pixels", "draw", "cdraw", "wdraw", "hugenew", "giant", "panic"}
+Known == {"case", "new", "image", "noimage", "pixels", "draw", "cdraw", "wdraw", "sdraw", "hugenew", "giant", "panic"}
 Eff(e) ==
   CASE e.ev = "new"     -> <<ItemsNew(e), img, st>>
     [] e.ev = "image"   -> <<ItemsImage(e), ImageAfter(e), st>>
@@ -75,6 +81,7 @@ Eff(e) ==
     [] e.ev = "pixels"  -> <<ItemsPixels(e), img, st>>
     [] e.ev = "draw"    -> <<ItemsDraw(e), img, StatAfterDraw(e)>>
     [] e.ev = "wdraw"   -> <<ItemsWDraw(e), img, [st EXCEPT !.window_draws = @ + Len(e.wins)]>>
+    [] e.ev = "sdraw"   -> <<ItemsSDraw(e), img, [st EXCEPT !.skipping_draws = @ + Len(e.obs)]>>
     [] e.ev = "cdraw"   -> <<ItemsCDraw(e), img, [st EXCEPT !.clipped_draws = @ + 1]>>
     [] e.ev = "giant"   -> <<Failing(<< [codes |-> GiantFails(e), d |-> [what |-> "giant", sub |-> e.sub, subcalls |-> e.subcalls, probes |-> e.probes]] >>), img, st>>
     [] e.ev = "hugenew" -> <<ItemsHugeNew(e), img, [st EXCEPT !.huge_new_probes = @ + Len(e.items)]>>
